@@ -10,9 +10,20 @@ LETTERS = {
     "float32": [1.5, float("nan"), -0.0], "float64": [float("inf"), float("nan"), -2.25],
 }
 SMALL = {"bool": [False, True, True]}
+# neighbouring values: distinct, but equal after a round trip through a narrower / floating representation
+NEAR = {
+    "bool": [False, True, True],
+    "int8": [126, 127, -128], "int16": [32766, 32767, -32768], "int32": [2 ** 31 - 2, 2 ** 31 - 1, -2 ** 31],
+    "int64": [2 ** 63 - 2, 2 ** 63 - 1, 2 ** 53 + 1],
+    "uint8": [254, 255, 0], "uint16": [65534, 65535, 0], "uint32": [2 ** 32 - 2, 2 ** 32 - 1, 2 ** 24 + 1],
+    "uint64": [2 ** 63, 2 ** 63 + 1, 2 ** 64 - 1],
+    "float32": [1.0, 1.0000001192092896, 16777216.0], "float64": [1.0, 1.0000000000000002, 9007199254740992.0],
+}
 
 
 def letters(dtype, small=False):
+    if small == "near":
+        return NEAR[dtype]
     if small and dtype != "bool":
         return [0, 1, 2] if np.dtype(dtype).kind != "f" else [0.1, 0.7, 2.5]
     return LETTERS[dtype]
